@@ -605,6 +605,37 @@ def bWire : BReq → Bool
   | .status (some ⟨_, .nilelem⟩) => false
   | _ => true
 
+/-! ### public HTTP API (handler/http/server.go) in front of the beacon process -/
+
+inductive HPrefix | none | known | unknown | malformed | odd | huge
+  deriving DecidableEq, Repr
+inductive HRound | zero | one | last | beyond | far | max | overflow | neg | alpha
+  deriving DecidableEq, Repr
+inductive HEp | latest | info | health | chains | round (r : HRound)
+  deriving DecidableEq, Repr
+
+/-- `readRound`: strconv.ParseUint(…, 10, 64) -/
+def HRound.parses : HRound → Bool
+  | .overflow | .neg | .alpha => false
+  | _ => true
+
+/-- 2xx = ok, any other status = err. The handler has no state a request could damage; net/http recovers a handler
+panic per connection (Listener.http). Real time is far beyond the stored rounds, so `/health` reports 503. -/
+def httpHandle (ph : BPhase) (pre : HPrefix) (ep : HEp) : Outcome :=
+  match ep with
+  | .chains => if pre = .none then .ok else .err            -- only the un-prefixed route exists
+  | _ =>
+    if (match ep with | .round r => !r.parses | _ => false) then .err      -- 400 before anything else
+    else if pre = .malformed || pre = .odd then .err                       -- readChainHash: 400
+    else if pre = .unknown || pre = .huge || ph = .nodkg then .err         -- getBeaconHandler: 404
+    else
+      match ph, ep with
+      | .running, .latest => .ok
+      | .running, .info => .ok
+      | .running, .round .zero | .running, .round .one | .running, .round .last => .ok
+      | .stopped, .info => .ok
+      | _, _ => .err
+
 def probeChainInfo : BReq := .chainInfo (some ⟨some ⟨.known, .known, .ok⟩⟩)
 def probePartial : BReq := .partialBeacon (some ⟨some ⟨.known, .known, .ok⟩, .past, .valid, .right⟩)
 
